@@ -74,6 +74,65 @@ impl CtrlData {
     }
 }
 
+/// Statically typed system data (the library's own `setup` / `fetch` code paths): only A = (Cell0, 0)
+/// and C = (Cell1, 0) can be named by a type.
+#[derive(Clone, Copy, Debug, PartialEq, Eq, Hash)]
+pub enum StaticData {
+    Unit,
+    ReadA,
+    WriteC,
+    OptReadA,
+    OptWriteC,
+    ReadExpectA,
+    ReadAWriteC,
+}
+
+impl StaticData {
+    pub fn all() -> [StaticData; 7] {
+        [StaticData::Unit, StaticData::ReadA, StaticData::WriteC, StaticData::OptReadA, StaticData::OptWriteC, StaticData::ReadExpectA, StaticData::ReadAWriteC]
+    }
+    pub fn reads(self) -> Vec<u8> {
+        match self {
+            StaticData::ReadA | StaticData::OptReadA | StaticData::ReadExpectA | StaticData::ReadAWriteC => vec![0],
+            _ => vec![],
+        }
+    }
+    pub fn writes(self) -> Vec<u8> {
+        match self {
+            StaticData::WriteC | StaticData::OptWriteC | StaticData::ReadAWriteC => vec![2],
+            _ => vec![],
+        }
+    }
+    /// resources a default provider creates in `setup`
+    pub fn defaults(self) -> Vec<u8> {
+        match self {
+            StaticData::ReadA => vec![0],
+            StaticData::WriteC => vec![2],
+            StaticData::ReadAWriteC => vec![0, 2],
+            _ => vec![],
+        }
+    }
+    pub fn label(self) -> &'static str {
+        match self {
+            StaticData::Unit => "()",
+            StaticData::ReadA => "Read<A>",
+            StaticData::WriteC => "Write<C>",
+            StaticData::OptReadA => "Option<Read<A>>",
+            StaticData::OptWriteC => "Option<Write<C>>",
+            StaticData::ReadExpectA => "ReadExpect<A>",
+            StaticData::ReadAWriteC => "(Read<A>, Write<C>)",
+        }
+    }
+}
+
+#[derive(Clone, Debug, PartialEq, Eq, Hash)]
+pub struct StaticSpec {
+    pub name: String,
+    pub deps: Vec<String>,
+    pub data: StaticData,
+    pub time: u8,
+}
+
 #[derive(Clone, Debug, PartialEq, Eq, Hash)]
 pub struct BatchSpec {
     pub name: String,
@@ -94,6 +153,8 @@ pub enum Op {
     Barrier,
     Tl(SysSpec),
     Batch(BatchSpec),
+    /// a system whose data is a statically typed `SystemData` (library setup / fetch paths)
+    Static(StaticSpec),
 }
 
 fn acc_str(reads: &[u8], writes: &[u8]) -> String {
@@ -132,6 +193,7 @@ impl Op {
             Op::Sys(s) => s.short(),
             Op::Barrier => "|".to_string(),
             Op::Tl(s) => format!("tl({})", s.short()),
+            Op::Static(s) => format!("static({:?}:{}/t{}{})", s.name, s.data.label(), s.time, if s.deps.is_empty() { String::new() } else { format!("<-{:?}", s.deps) }),
             Op::Batch(b) => format!(
                 "batch({:?}{} ctrl={} x{}{}{} [{}])",
                 b.name,
@@ -150,6 +212,7 @@ impl Op {
             Op::Sys(s) => json!({"op":"sys","name":s.name,"reads":s.reads,"writes":s.writes,"time":s.time,"deps":s.deps}),
             Op::Barrier => json!({"op":"barrier"}),
             Op::Tl(s) => json!({"op":"tl","name":s.name,"reads":s.reads,"writes":s.writes,"time":s.time}),
+            Op::Static(s) => json!({"op":"static","name":s.name,"deps":s.deps,"data":s.data.label(),"time":s.time}),
             Op::Batch(b) => json!({"op":"batch","name":b.name,"deps":b.deps,"ctrl":b.ctrl.label(),
                 "times":b.times,"multi":b.multi,"fetch_data":b.fetch_data,
                 "inner": b.inner.iter().map(|o| o.to_json()).collect::<Vec<_>>()}),
@@ -178,6 +241,15 @@ impl Op {
                     deps: v.get("deps").map(strs).unwrap_or_default(),
                 };
                 Some(if k == "sys" { Op::Sys(s) } else { Op::Tl(s) })
+            }
+            "static" => {
+                let label = v.get("data")?.as_str()?;
+                Some(Op::Static(StaticSpec {
+                    name: v.get("name")?.as_str()?.to_string(),
+                    deps: strs(v.get("deps")?),
+                    data: StaticData::all().into_iter().find(|c| c.label() == label)?,
+                    time: v.get("time")?.as_u64()? as u8,
+                }))
             }
             "batch" => {
                 let label = v.get("ctrl")?.as_str()?;
@@ -251,6 +323,10 @@ pub struct Node {
     pub children: Vec<usize>,
     /// number of barriers registered before this op in its sequence
     pub barriers_before: usize,
+    /// statically typed system (no harness events, library setup path)
+    pub is_static: bool,
+    /// resources (bit mask) that this node's own data creates through a default provider in `setup`
+    pub defaults: u8,
 }
 
 #[derive(Clone, Debug, Default)]
@@ -289,6 +365,32 @@ fn number(ops: &[Op], parent: Option<usize>, depth: usize, info: &mut PlanInfo) 
                     multi: false,
                     children: vec![],
                     barriers_before: barriers,
+                    is_static: false,
+                    defaults: 0,
+                });
+                ids.push(id);
+            }
+            Op::Static(st) => {
+                let id = info.nodes.len();
+                info.nodes.push(Node {
+                    id,
+                    kind: Kind::Sys,
+                    parent,
+                    depth,
+                    op_index: i,
+                    name: st.name.clone(),
+                    deps: st.deps.clone(),
+                    time: st.time,
+                    reads: st.data.reads(),
+                    writes: st.data.writes(),
+                    eff_reads: mask(&st.data.reads()),
+                    eff_writes: mask(&st.data.writes()),
+                    times: 0,
+                    multi: false,
+                    children: vec![],
+                    barriers_before: barriers,
+                    is_static: true,
+                    defaults: mask(&st.data.defaults()),
                 });
                 ids.push(id);
             }
@@ -311,6 +413,9 @@ fn number(ops: &[Op], parent: Option<usize>, depth: usize, info: &mut PlanInfo) 
                     multi: b.multi,
                     children: vec![],
                     barriers_before: barriers,
+                    is_static: false,
+                    // every controller kind of the harness uses default-providing Read / Write
+                    defaults: mask(&b.ctrl.reads()) | mask(&b.ctrl.writes()),
                 });
                 let ch = number(&b.inner, Some(id), depth + 1, info);
                 let mut er = mask(&b.ctrl.reads());
